@@ -203,7 +203,7 @@ def main(tier):
         ck.extra.setdefault("code_reached", {}).update({k: v for k, v in o[1]["reached"].items() if k.startswith("jaxley")})
     for can, oc in zip(TABLE_CANARIES, outs_t[1:]):
         ref = oc[0] == "ok" and not oc[1]["error"] and any(r["status"] != "proved" for r in oc[1]["results"])
-        ck.canaries.append((f"{can[0]}: {can[2][:50]!r} -> {can[3][:50]!r}", ref))
+        ck.canary(f"{can[0]}: {can[2][:50]!r} -> {can[3][:50]!r}", ref, oc)
     ck.trusted = ["gate contracts (alpha>0, beta>0 / x_inf in (0,1), tau>0) discharged under C03", "jax.numpy primitive models", "z3 + exp axioms"]
     ck.assumptions += ["domain: v in [-120,60] mV, dt in (0,1000], parameter ranges as in C03",
                        "table-level part: the real Module.init_states runs on symbolic tables of two cells with partial insertions, several channels per compartment, a renamed channel and shared parameters (structures enumerated, values symbolic)"]
